@@ -154,10 +154,12 @@ class StreamStatistics:
             self.max_seq = packet.sequence_number
 
             if packet.timestamp != self._last_timestamp and self.packets_received > 1:
-                diff = abs(
-                    (arrival - self._last_arrival)
-                    - (packet.timestamp - self._last_timestamp)
-                )
+                # RTP timestamps are 32-bit serial numbers: take their
+                # difference modulo 2^32, as a signed value
+                timestamp_diff = (packet.timestamp - self._last_timestamp) & 0xFFFFFFFF
+                if timestamp_diff & 0x80000000:
+                    timestamp_diff -= 1 << 32
+                diff = abs((arrival - self._last_arrival) - timestamp_diff)
                 self._jitter_q4 += diff - ((self._jitter_q4 + 8) >> 4)
 
             self._last_arrival = arrival
